@@ -92,7 +92,7 @@ theorem bound_length (L n : Nat) : Model.boundLength L n = ((L - n : Nat) : Int)
 theorem dyn_length_eq (k : Spec.DynKind) (L n : Nat) : Model.dynLength k L n = (Spec.dynLength k L n : Int) := by
   cases k <;> simp [Model.dynLength, Spec.dynLength, bound_length]
 
-/-- §13.2 / §15.3.4.5: outside the two regions every reflected field of every run-time function object is as specified -/
+/-- §13.2 / §15.3.4.5: outside the region `bound_has_prototype` every reflected field of every run-time function object is as specified -/
 theorem dyn_model_eq_spec (k : Spec.DynKind) (L n : Nat) (f : Spec.DynField) (h : Model.devDyn k f = "-") :
     Model.dyn k L n f = Spec.dyn k L n f := by
   cases f
@@ -107,7 +107,8 @@ theorem dyn_regions_tight (k : Spec.DynKind) (L n : Nat) (f : Spec.DynField) (h 
   cases f <;> cases k <;> simp_all [Model.dyn, Spec.dyn, Model.devDyn, Model.attrs, Spec.Attrs.tok]
 
 example : Model.dyn .bound 2 1 .hasproto = "P" ∧ Spec.dyn .bound 2 1 .hasproto = "-" := by decide
-example : Model.dyn .node 2 0 .callerdesc = "panic" ∧ Spec.dyn .node 2 0 .callerdesc = "ok" := by decide
+-- (former region accessor_descriptor_panic: fixed in /repo f48e83f, the model now agrees with the spec there)
+example : Model.dyn .node 2 0 .callerdesc = Spec.dyn .node 2 0 .callerdesc ∧ Model.devDyn .node .callerdesc = "-" := by decide
 example : Model.devDyn .node .length = "-" ∧ Model.devDyn .bound .length = "-" := by decide
 
 /-! ### wiring: which Go function a slot is bound to follows the naming convention builtin<Type><Name>, except for
